@@ -81,9 +81,10 @@ class PyMesh:
         self.mesh = mesh
 
     @staticmethod
-    def create(glue, X, T):
+    def create(glue, X, T, flag_type=bool):
         from src.mesh import Mesh
-        return PyMesh(Mesh(glue_space=bool(glue), initial_space_mesh=list(X), initial_time_mesh=list(T)))
+        # flag_type: how the caller writes the closed/open flag (a Python bool, or numpy.bool_ as the result of np.all(...))
+        return PyMesh(Mesh(glue_space=flag_type(bool(glue)), initial_space_mesh=list(X), initial_time_mesh=list(T)))
 
     def apply(self, op):
         """op = tuple; returns the canonical result line ('ok n ...' or 'err')."""
